@@ -18,7 +18,9 @@ RULE = ("linecol: all texts of length <= 4 (quick) / 5 (thorough) over the 7-sym
         "plus random texts up to 64 / 160 characters, each x EVERY byte index 0..len (on and off character boundaries) x every line "
         "number 0..count+1; non-trivial = distinct (text, index) with a multi-byte character before the index. "
         "fault: generated valid program x 5 fault kinds x position x non-ASCII context (before/on/after the fault line, leading block "
-        "comment shifting the column, included file, CRLF); non-trivial = distinct (kind, fault text, decoration, context, included?, "
+        "comment shifting the column, included file, CRLF); unfinished directives are generated on purpose before a line that CAN continue them "
+        "(known finding F51 applies only there), before a `#` directive line, as the last line of the main / included file with and without a "
+        "final line feed (there the error must be on the fault line); non-trivial = distinct (kind, fault text, decoration, context, included?, "
         "multi-byte character before the fault in the same file). monitor: every message of 1..4-edit token mutants of the corpus; "
         "non-trivial = distinct (file, mutant) producing at least one located message after a multi-byte character.")
 
@@ -247,8 +249,9 @@ def fault_verdict(case, r, known):
     lo, hi = g.line_ranges(b)[eline]
     if not (lo <= m["start"] <= m["end"] <= hi):
         l, c = g.spec_linecol(b, m["start"])
-        return "fault-wrong-line", "the first error is located at %s:%d:%d (bytes %d..%d), the fault is on line %d" % (
-            efile, l + 1, c + 1, m["start"], m["end"], eline + 1)
+        return ("fault-wrong-line-after" if m["start"] >= hi else "fault-wrong-line-before" if m["start"] < lo else "fault-span-spills-over"), \
+            "the first error is located at %s:%d:%d (bytes %d..%d), the fault is on line %d" % (
+                efile, l + 1, c + 1, m["start"], m["end"], eline + 1)
     if case["other"] is not None:
         # duplicate declaration: the nested note points at the earlier declaration
         notes = [x for x in msgs[1:] if x["depth"] == 1 and x["span"] == "S"]
@@ -296,6 +299,7 @@ def stream_fault(chk, lim, model, bins):
         q = c["prog"]
         rep = {"kind": "program", "stream": "fault", "fault_kind": c["kind"], "fault_text": c["stmt"], "fault_file": c["file"],
                "fault_line": c["line"] + 1, "expect": [c["expect"][0], c["expect"][1] + 1], "entry": q.entry,
+               "situation": c.get("situation"), "next_useful_token_after_fault_line": c.get("next_token"), "can_continue": c.get("continues"),
                "files": {n: q.text(n) for n in q.order}, "impl": r}
         dist["kind_" + c["kind"]] += 1
         dist["nonascii_on_line_" + c["on_line"]] += 1
@@ -303,6 +307,10 @@ def stream_fault(chk, lim, model, bins):
         dist["fault_in_included_file"] += 1 if c["included"] else 0
         dist["crlf"] += 1 if q.eol == "\r\n" else 0
         dist["open_ended_directive_faults"] += 1 if c["open_ended"] else 0
+        if c["open_ended"]:
+            k2 = "open_ended_" + ("next_can_continue" if c["continues"] else ("at_end_of_file" if c["next_token"] is None else "next_cannot_continue"))
+            dist[k2] = dist.get(k2, 0) + 1
+            dist["open_ended_in_included_file"] = dist.get("open_ended_in_included_file", 0) + (1 if c["included"] else 0)
         if r != res["release"][idx]:
             rep["release"] = res["release"][idx]
             lim.add("profile-divergence", "debug and release builds disagree", rep)
@@ -317,10 +325,15 @@ def stream_fault(chk, lim, model, bins):
         files = {n: lossy(b) for n, b in q.bytes_map().items()}
         b = files[c["file"]]
         before = b[:g.line_ranges(b)[c["line"]][0]]
-        chk.nontriv((c["kind"], c["stmt"], c["on_line"], c["context"], c["included"], len(before) != len(before.decode("utf-8"))))
+        chk.nontriv((c["kind"], c["stmt"], c["on_line"], c["context"], c["included"], len(before) != len(before.decode("utf-8")),
+                     c.get("situation"), c.get("continues")))
         if cls is None:
             dist["first_error_on_fault_line"] += 1
-        elif cls in ("fault-wrong-line", "fault-undiagnosed") and c["open_ended"]:
+        elif cls in ("fault-wrong-line-after", "fault-span-spills-over", "fault-undiagnosed") and c["open_ended"] and c["continues"]:
+            # F51 only where the text after the fault line CAN continue the unfinished statement (next useful token of the
+            # same file begins what the parser still expects); before `#...`, `}` or the end of the file the error must be
+            # on the fault line, and anything else is a violation
+            dist["f51_continuing"] = dist.get("f51_continuing", 0) + 1
             kc = "incomplete_directive_continues_on_next_line"
             if kc in known:
                 chk.known(known[kc]["id"], "class=%s: e.g. `%s` at %s:%d: %s" % (kc, c["stmt"], c["file"], c["line"] + 1, why))
